@@ -25,3 +25,11 @@ pub fn idiom_concat2(a: Vec<u8>, b: Vec<u8>) -> (r: Vec<u8>)
 // types only
 pub broadcast axiom fn axiom_string_obeys_key_model()
     ensures #[trigger] vstd::std_specs::hash::obeys_key_model::<String>();
+
+// std::mem::take (ASSUMED, std documentation): returns the old value and leaves T::default() behind
+pub uninterp spec fn default_spec<T>() -> T;
+pub assume_specification<T: Default>[ std::mem::take::<T> ](dest: &mut T) -> (r: T)
+    ensures r == *old(dest), *final(dest) == default_spec::<T>();
+// Vec<u8>::default() is the empty vector
+pub broadcast axiom fn axiom_default_vec_u8()
+    ensures (#[trigger] default_spec::<Vec<u8>>())@ == Seq::<u8>::empty();
